@@ -270,7 +270,7 @@ def rule_limits(ctx: Ctx, rep: Report) -> None:
     oc = ctx.func(f"{TAP}.op_checksig")
     dec = [n for n in own_nodes(oc.node) if isinstance(n, ast.AugAssign) and norm(n.target) == "budget" and isinstance(n.op, ast.Sub)]
     g = ctx.cfg(oc)
-    okd = bool(dec) and ctx.fold(dec[0].value, oc.module) == 50 and any(t == "signature" and p for t, p in g.facts_at_ast(dec[0].value))
+    okd = bool(dec) and ctx.fold(dec[0].value, oc.module) == 50 and any(p and _emptiness_subject(t) is not None for t, p in g.facts_at_ast(dec[0].value))
     rep.ob(rule, "tapscript:budget_per_sigop", okd, oc.where(), "50 per non-empty signature")
     rep.ob(rule, "tapscript:budget_exhausted", has_bound(refusal_constraints(ctx, oc), "<", 0, subject="budget") is not None, oc.where(), "refuses budget < 0")
     initial_stack_limits(ctx, rep, rule)
